@@ -467,8 +467,11 @@ def c06(S, rec):
     out = []
     op = rec["op"]
     snaps = rec["snaps"]
+    upd_pw = None
     for j, (k, ph, working, sn) in enumerate(snaps):
         wk = is_working_step(op, k)
+        if ph == "updated":
+            upd_pw = [c["pw"] for c in sn["C"]]
         if ph == "updated" and wk:
             for i in range(S.nt):
                 if S.exempt[i] and fresh(op):
@@ -498,6 +501,15 @@ def c06(S, rec):
                     pw = sn["C"][c]["pw"]
                     if pw is None:
                         continue
+                    # the clause is relative to the workplace at which the component sat when the
+                    # task was served (Props/C06.v); a component that changed place in this very step
+                    # may have been moved after the task's turn by a task of its parent assembly
+                    if upd_pw is not None and upd_pw[c] != pw:
+                        family = {c} | S.ancestors(c) | S.descendants(c)
+                        for a in list(S.ancestors(c)):
+                            family |= S.descendants(a)
+                        if any(t2 != i for x in family for t2 in S.comp_tasks[x]):
+                            continue
                     for f in S.wp_members[pw]:
                         if sn["F"][f]["st"] != R_FREE or not S.f_targets(f, i):
                             continue
